@@ -266,7 +266,7 @@ PROPS = {
         "not_covered": ["an edit that introduces an untyped closure is flagged (its result is unknown to Verus) even if harmless", "that quoted and unquoted plain-decimal spellings denote the same value (std vs syn parser agreement: trusted)", "termination of the default from_expr on nested groups (R17)"],
     },
     "C13": {
-        "units": ["c13_syn_values", "c13_parse_expr", "c13_parse_expr_agree", "c13_callable_group", "c13_arrays"],
+        "units": ["c13_syn_values", "c13_parse_expr", "c13_parse_expr_agree", "c13_callable_group", "c13_arrays", "c12_ident_atomic"],
         "classes": r"postcondition|post-condition of closure|assertion failed|precondition not satisfied|invariant",
         "level_text": "syn::Expr, syn::Path, syn::Ident, from_syn_expr_type! x3, from_syn_parse! x18, from_meta_lit! x8 (from_value), syn::Lit, syn::Meta, Vec<WherePredicate>, Punctuated<T,P>, PathList::from_list, Callable::from_expr, IdentString, "
                       "preserve_str_literal and parse_str_literal are proved on their real bodies: bare form => Ok(the user's node itself); quoted form => Ok(what syn's parser for T makes of exactly that literal / string) or unknown value at the literal; "
